@@ -902,7 +902,7 @@ def iter_model(it, fn, name, args, dest_ty, term, caller, depth):
     if tr.endswith("iter::Iterator") or tr.endswith("iterator::Iterator") or tr.endswith("DoubleEndedIterator"):
         if name in ITER_ADAPTERS and args and isinstance(args[0], (IterV, Adt)):
             inner = args[0]
-            if isinstance(inner, Adt) and not inner.name.endswith("ops::Range"):
+            if isinstance(inner, Adt) and not inner.name.endswith(("ops::Range", "ops::RangeInclusive", "ops::RangeFrom")):
                 return NotImplemented
             if name == "map":
                 return IterV("map", (inner, args[1]))
